@@ -144,6 +144,30 @@ UpRoots(st, fr, i, grow, oracle, nrep) ==
             IF ~s.ok THEN [st EXCEPT !.ok = FALSE, !.q = s.q]
             ELSE UpRoots([AppendRoot(st, s.node) EXCEPT !.q = s.q], Tail(fr), i, FALSE, oracle, nrep)
 
+(* additional nodes (partial upgrade: the requested length is below the writer's): the tree of the  *)
+(* requested length is continued to the signed length.  Unlike the nodes above these are not asked *)
+(* for by index: the verifier follows what it is given - first the nodes that merge with the last   *)
+(* root (its sibling, then the sibling of the merged root, ...), then roots further right, each     *)
+(* found by descending to the left from the position behind the last root.                          *)
+LastRoot(st) == st.roots[Len(st.roots)].idx
+RECURSIVE ExtraMerge(_, _, _)
+\* result [st, i, it]: it = where the iterator stands when the first loop ends
+ExtraMerge(st, extra, i) ==
+  IF i > Len(extra) THEN [st |-> st, i |-> i, it |-> LastRoot(st)]
+  ELSE LET sib == Sibling(LastRoot(st)) IN
+       IF extra[i].idx = sib THEN ExtraMerge(AppendRoot(st, extra[i]), extra, i + 1)
+       ELSE [st |-> st, i |-> i, it |-> sib]
+RECURSIVE Descend(_, _)
+Descend(it, target) == IF it = target THEN it ELSE IF it % 2 = 0 THEN -1 ELSE Descend(LeftChild(it), target)
+RECURSIVE ExtraRoots(_, _, _, _)
+ExtraRoots(st, extra, i, it) ==
+  IF i > Len(extra) THEN [ok |-> TRUE, st |-> st]
+  ELSE IF Descend(it, extra[i].idx) < 0 THEN [ok |-> FALSE, st |-> st]
+  ELSE LET st2 == AppendRoot(st, extra[i]) IN ExtraRoots(st2, extra, i + 1, Sibling(LastRoot(st2)))
+Extra(st, extra) ==
+  IF extra = <<>> THEN [ok |-> TRUE, st |-> st]
+  ELSE LET m == ExtraMerge(st, extra, 1) IN ExtraRoots(m.st, extra, m.i, m.it)
+
 \* up = [start, length, nodes, extra, sig]; returns the changeset or a refusal
 VerifyUpgrade(rep, up, blockroot, fork, oracle) ==
   LET st0 == [roots |-> RepRoots(rep), nodes |-> <<>>, len |-> rep.rl, upgraded |-> FALSE,
@@ -151,8 +175,8 @@ VerifyUpgrade(rep, up, blockroot, fork, oracle) ==
       st1 == UpRoots(st0, FullRoots(up.start + up.length), 0, RepRoots(rep) # <<>>, oracle, rep.rl)
   IN IF ~st1.ok THEN [ok |-> FALSE, why |-> "node queue"]
      ELSE IF st1.roots = <<>> THEN [ok |-> FALSE, why |-> "no roots"]
-     ELSE IF up.extra # <<>> THEN [ok |-> FALSE, why |-> "additional nodes are not modelled (full upgrades only)"]
-     ELSE LET st2 == st1
+     ELSE IF ~Extra(st1, up.extra).ok THEN [ok |-> FALSE, why |-> "additional nodes"]
+     ELSE LET st2 == Extra(st1, up.extra).st
               sig == Sig("writer", TreeHash(st2.roots), st2.len, fork) IN
           IF ~oracle /\ up.sig # sig THEN [ok |-> FALSE, why |-> "signature"]
           ELSE [ok |-> TRUE, roots |-> st2.roots, nodes |-> st2.nodes, len |-> st2.len,
@@ -209,6 +233,21 @@ UpAsked(rep, wl) ==
   IF IsNone(upreq) THEN <<>>
   ELSE VerifyUpgrade(rep, [start |-> upreq.start, length |-> upreq.length, nodes |-> <<>>, extra |-> <<>>,
                            sig |-> TrueSig(wl)], None, 0, TRUE).asked
+\* the same for an upgrade of a replica of length rl to length target (no block section)
+UpAskedTo(rl, target) ==
+  IF rl >= target THEN <<>>
+  ELSE VerifyUpgrade([rl |-> rl, have |-> {}, blocks |-> {}],
+                     [start |-> rl, length |-> target - rl, nodes |-> <<>>, extra |-> <<>>, sig |-> TrueSig(target)],
+                     None, 0, TRUE).asked
+\* a partial upgrade: the replica asks for length upto < wl; the proof carries the nodes for upto, then -
+\* as additional nodes - what continues the tree of length upto to the writer's length, whose signature
+\* is the only one the writer has
+HonestPartialUp(rep, upto, wl) ==
+  [fork |-> 0, block |-> None, hash |-> None,
+   up |-> [start |-> rep.rl, length |-> upto - rep.rl,
+           nodes |-> LET a == UpAskedTo(rep.rl, upto) IN [j \in 1..Len(a) |-> TrueNode(a[j])],
+           extra |-> LET x == UpAskedTo(upto, wl) IN [j \in 1..Len(x) |-> TrueNode(x[j])],
+           sig |-> TrueSig(wl)]]
 InSeq(x, sq) == \E j \in 1..Len(sq) : sq[j] = x
 \* how far the block section climbs: a block inside the tree the replica already has is proved up
 \* to the first node the replica stores (count from its own missing_nodes query); a block in the
